@@ -351,11 +351,28 @@ class Gen:
     literal branch (typed explicit, may hold a Python int)"""
     r = self.rng.random()
     if r < 0.33: return self.literal(w)
+    if self.rng.random() < 0.05 + self.noise:
+      # a comparison result (RTLIR data type Bool, one bit) meeting a w-bit operand: rejected unless w == 1
+      return self.bool_term(max(0, d - 1))
     if r < 0.45 and d > 0:
       t, f = self.hard(w, d - 1), self.literal(w)
       if self.rng.random() < 0.4: t, f = f, t
       return ['ite', self.cond(d - 1), t, f]
     return self.hard(self.width_near(w), d)
+
+  def bool_term(self, d):
+    """a term whose RTLIR data type is rdt.Bool: a comparison, its complement, an if-expression of comparisons,
+    a temporary assigned from a comparison"""
+    rng = self.rng
+    cw = rng.choice([1, 2, 3, 4, 8])
+    l, r = self.hard(cw, d), (self.hard(cw, d) if rng.random() < 0.6 else self.literal(cw))
+    if rng.random() < 0.3: l, r = r, l
+    c = ['cmp', rng.choice(list(CMPOP)), l, r]
+    k = rng.random()
+    if k < 0.6: return c
+    if k < 0.75: return ['un', 'inv', c]
+    c2 = ['cmp', rng.choice(list(CMPOP)), self.hard(cw, 0), self.hard(cw, 0)]
+    return ['ite', self.cond(0), c, c2]
 
   def cond(self, d):
     rng = self.rng
@@ -566,6 +583,32 @@ def gen_desc(rng, uid):
     big = g.new_in(max(2, a + rng.randint(0, 1)))
     body = [['asg', O1, ['idx', big[0], big[1], I]]]
   return {'uid': uid, 'stream': 'desc', 'sigs': g.sigs, 'block': [['for', 0, a, b, c, body]]}
+
+# ---- comparison results (rdt.Bool) as operands of operators against explicitly sized operands
+
+def gen_boolop(rng, uid):
+  """`X op C` / `C op X` with X an explicitly sized w-bit term and C of RTLIR data type Bool (one bit): accepted and
+  simulated for w == 1, rejected for w > 1, whichever side the Bool is on"""
+  g = Gen(rng, uid, 'boolop', 0.0)
+  w = rng.choice([1, 1, 2, 3, 4, 8])
+  x = g.new_in(w); o = g.new_out(w); o1 = g.new_out(1)
+  O, O1 = ['sig', o[0], w], ['sig', o1[0], 1]
+  X = g.hard(w, rng.randint(0, 1))
+  block = []
+  if rng.random() < 0.25:
+    cw = rng.choice([2, 4, 8])
+    block.append(['tasg', 0, ['cmp', rng.choice(list(CMPOP)), g.hard(cw, 0), g.hard(cw, 0)]])
+    g.tmps[0] = (1, True)
+    C = ['tmp', 0]
+  else:
+    C = g.bool_term(rng.randint(0, 1))
+  l, r = (X, C) if rng.random() < 0.5 else (C, X)
+  k = rng.random()
+  if k < 0.55: block.append(['asg', O, ['bin', rng.choice(MAXOPS), l, r]])
+  elif k < 0.85: block.append(['asg', O1, ['cmp', rng.choice(list(CMPOP)), l, r]])
+  elif k < 0.93: block.append(['ifs', ['cmp', rng.choice(['eq', 'ne']), l, r], [['asg', O, X]], []])
+  else: block.append(['asg', O, ['ite', ['idx', x[0], w, num(rng, 0)], l, r]])
+  return {'uid': uid, 'stream': 'boolop', 'sigs': g.sigs, 'block': block}
 
 # ---- labelled streams: one per known soundness hole of the checker (each is a parameterised witness)
 
